@@ -12,8 +12,8 @@ Theorem c15_case_sound : forall c, case_accept c = true -> case_holds c = true.
 Proof. exact case_sound. Qed.
 
 (* the model's own observation of any sequential history satisfies the monitor (accept = "is the model's observation") *)
-Theorem c15_seq_model_holds : forall l c univ steps g, gok g -> seq_accept l c univ g steps = true ->
-  seq_holds l univ (snap_cache l c g univ) (snap_store c g univ) steps = true.
+Theorem c15_seq_model_holds : forall l c univ steps g ws, gok g -> ws_ok c ws -> seq_accept l c univ g steps = true ->
+  seq_holds l univ (snap_cache l c g univ) (snap_store c g univ) ws steps = true.
 Proof. exact seq_sound. Qed.
 
 (* the same for scheduled runs: any label sequence with answers and snapshots that replays on the machine satisfies
